@@ -5,7 +5,7 @@
 From NDN Require Import Base.Prelude Model.TlvVar Model.Name Model.Tlv Model.PacketPtrs Spec.SignedPortion
   Proofs.BytesLemmas Proofs.PtrsSpecView Proofs.PtrsSplit Proofs.PtrsData Proofs.PtrsInterestWalk.
 Local Open Scope N_scope.
-Set Default Timeout 120.
+Set Default Timeout 900.
 Arguments N.of_nat : simpl never.
 Arguments N.to_nat : simpl never.
 
